@@ -9,6 +9,7 @@ import (
 	"fmt"
 	"os"
 	"strings"
+	"unicode/utf8"
 
 	"github.com/enbility/ship-go/ship"
 
@@ -21,6 +22,12 @@ import (
 var numLits = []string{"1", "1.0", "1e3", "-0", "0.10", "1E+2", "-12.50", "100000000000000000000"}
 var bigLits = []string{"12345678901234567890.0123456789", "18446744073709551615", "-9223372036854775809", "1e400", "0.1000000000000000055511151231257827"}
 var num, big = numLits[0], bigLits[0]
+
+// string contents: the abstract character "x" of a string is concretised by a text that rotates with the document - as it
+// is written in the JSON input, and the value it denotes. Strings are compared by VALUE (encoding/json may spell < as \u003c)
+var strLits = [][2]string{{"x", "x"}, {"<", "<"}, {`\\u003c`, `\u003c`}, {"é", "é"}, {`\u00e9`, "é"}, {`\\`, `\`}, {`\n`, "\n"}, {`\/`, "/"},
+	{"😀", "😀"}, {"&>", "&>"}, {`\t\r`, "\t\r"}, {"%s", "%s"}, {`\\u0026`, `\u0026`}, {"\u2028", "\u2028"}}
+var strLit = strLits[0]
 
 type rowT struct {
 	ID  int             `json:"id"`
@@ -53,6 +60,8 @@ func render(d map[string]interface{}) string {
 		for _, t := range d["s"].([]interface{}) {
 			if t == "q" {
 				b.WriteString(`\"`)
+			} else if t == "x" {
+				b.WriteString(strLit[0])
 			} else {
 				b.WriteString(t.(string))
 			}
@@ -76,9 +85,49 @@ func render(d map[string]interface{}) string {
 	panic("unknown node")
 }
 
+// jsonStringEnd returns the index just after the JSON string literal that starts at s[i] (s[i] == '"'), or -1
+func jsonStringEnd(s string, i int) int {
+	for j := i + 1; j < len(s); j++ {
+		switch s[j] {
+		case '\\':
+			j++
+		case '"':
+			return j + 1
+		}
+	}
+	return -1
+}
+
 func tokens(s string) []string {
 	out := []string{}
 	for i := 0; i < len(s); {
+		if s[i] == '"' {
+			// a string literal: compared by the value it denotes
+			end := jsonStringEnd(s, i)
+			var v string
+			if end < 0 || json.Unmarshal([]byte(s[i:end]), &v) != nil {
+				out = append(out, "invalid-string:"+s[i:])
+				return out
+			}
+			out = append(out, `"`)
+			for k := 0; k < len(v); {
+				switch {
+				case strings.HasPrefix(v[k:], strLit[1]):
+					out = append(out, "x")
+					k += len(strLit[1])
+				case v[k] == '"':
+					out = append(out, "q")
+					k++
+				default:
+					_, w := utf8.DecodeRuneInString(v[k:])
+					out = append(out, v[k:k+w])
+					k += w
+				}
+			}
+			out = append(out, `"`)
+			i = end
+			continue
+		}
 		switch {
 		case strings.HasPrefix(s[i:], big):
 			out = append(out, "9")
@@ -127,6 +176,7 @@ func main() {
 			return err
 		}
 		num, big = numLits[r.ID%len(numLits)], bigLits[(r.ID/len(numLits))%len(bigLits)]
+		strLit = strLits[(r.ID/3)%len(strLits)]
 		o := obsT{ID: r.ID, Doc: r.Doc, Text: render(d), Wire: []string{}, Back: []string{}}
 		wire, werr := ship.JsonIntoEEBUSJson([]byte(o.Text))
 		if werr != nil {
